@@ -320,6 +320,21 @@ def cascade(ctx: Any) -> List[Ob]:
         obs.append(ob(R, f, f'strict={strict}: {len(accepting)} accepting path(s)', 'every accepting path has evaluated every documented rule of its mode', not bad, '; '.join(sorted(set(bad)))[:300]))
         inst = [t for t in accepting if any(x == 'K:label-length' for x in t)]
         obs.append(ob(R, f, f'strict={strict}: {len(inst)} accepting path(s) with an instance label', 'names with an instance / subtype label go through the 63-byte and control-character checks', bool(inst)))
+    # an accepted name that HAS an instance / subtype / host label went through its checks: every path to a return either
+    # evaluates the 63-byte test or has found the list of remaining labels empty (the false edge of its truthiness test)
+    rem = [n_ for n_, vs in __import__('rules.common', fromlist=['local_defs']).local_defs(f).items() if any(v is not None and isinstance(v, ast.Call) and call_name(v) == 'split' for v in vs)]
+    bad_paths = []
+    n_ret = 0
+    for path in cfg.paths(loop_bound=1):
+        last = path[-1][0]
+        if last is cfg.raise_exit or not any(n.kind == 'return' for n, _ in path):
+            continue
+        n_ret += 1
+        checked = any(n.kind == 'test' and 'label-length' in _test_kinds(ctx, f, n.ast) for n, _ in path)
+        empty = any(n.kind == 'test' and isinstance(n.ast, ast.Name) and n.ast.id in rem and lab is False for n, lab in path) or any(n.kind == 'test' and isinstance(n.ast, ast.UnaryOp) and isinstance(n.ast.op, ast.Not) and isinstance(n.ast.operand, ast.Name) and n.ast.operand.id in rem and lab is True for n, lab in path)
+        if not (checked or empty):
+            bad_paths.append(' -> '.join(str(n.line) for n, _ in path if n.kind in ('test', 'return') and n.line))
+    obs.append(ob(R, f, f'{n_ret} accepting path(s) through the validator', 'a name is accepted only after its instance / subtype / host label passed the 63-byte and control-character checks, or when it has no such label', n_ret > 0 and not bad_paths and bool(rem), ('an accepting path skips the label checks: lines ' + bad_paths[0]) if bad_paths else ''))
     return obs
 
 
